@@ -403,7 +403,8 @@ class Interp:
             if v.role in ("set", "coll", "layer", "partition-list"):
                 return ("not", ("empty", v.var))
             if v.role == "partition":
-                return ("not", ("partfalse", v.var))
+                # False, or a list of layers - which is falsy as well when it has no layer (the partition of the empty base)
+                return ("and", (("not", ("partfalse", v.var)), ("not", ("empty", v.var))))
             if v.role == "optional":
                 if v.fam == "list":
                     # None or a list that may be empty: both are falsy, and they are different answers
